@@ -124,11 +124,12 @@ class Run8:
         self.sess = None
         self.counts = {k: 0 for k in ["write", "flush", "merge", "gc", "move", "none", "reopen", "take", "drop", "verify_ok",
                                       "verify_backoff", "verify_err", "vkill", "vkill_reached", "skill", "skill_reached",
-                                      "roll", "trash_moves", "unlinks", "readd_same_edit", "readd_later", "compare", "selector_panic", "selector_panic_after_reopen", "stale_read_c01", "entries_compared", "unlinks_checked", "readd_in_live_at_verify"]}
+                                      "roll", "trash_moves", "unlinks", "readd_same_edit", "readd_later", "compare", "selector_panic", "selector_panic_after_reopen", "stale_read_c01", "entries_compared", "unlinks_checked", "readd_in_live_at_verify", "interleaved_compactions"]}
         self.seen_removed = set()
         self.last_view = None
         self.file_entries = {}
         self.readded = set()
+        self.k2_seen = False      # a reopen recovered a tree with files overlapping in key and timestamp range (C01 K2)
         self.k_names = set()      # setsums re-created while the verifier's recorded intent named them (known class)
         self.entries_before_close = None
         self.model.cmd("reset")
@@ -174,6 +175,9 @@ class Run8:
         for name, m, i in pairs:
             if m != i:
                 self.problem("corr", what="%s differs from the model after %s" % (name, where), model=str(m)[:600], impl=str(i)[:600])
+        if self.last_view:
+            moved = (set(self.last_view["ls"]["sst"]) - set(v["ls"]["sst"])) & set(v["ls"]["trash"])
+            self.counts["trash_moves"] += len(moved)
         self.check_needed(v, where)
         return v
 
@@ -197,8 +201,9 @@ class Run8:
 
     def reads(self):
         """point reads of the key universe.  A read that FAILS (a file is missing) is this
-        property's business; a read that returns a stale value is C01's (known class K2 after a
-        reopen: recover.rs rebuilds the levels from key/timestamp ranges) and is only counted."""
+        property's business.  A read that returns a stale value is attributed to C01's known class
+        K2 only when a reopen of this history recovered a tree holding two files that overlap in key
+        range and in timestamp range (the classifier of checks/lsmlib.py); otherwise it is a problem."""
         if self.dead:
             return
         keys = self.universe
@@ -212,7 +217,11 @@ class Run8:
             if io.startswith("err:"):
                 self.problem("needed", what="a point read failed", key=lsmlib.hx(k), impl=io)
             elif ic != ws:
-                self.counts["stale_read_c01"] += 1
+                if self.k2_seen:
+                    self.counts["stale_read_c01"] += 1
+                else:
+                    self.problem("read", what="a point read returns a stale value and no reopen of this history recovered a tree of C01's class K2",
+                                 key=lsmlib.hx(k), impl=io, spec=ws)
 
     def entries(self):
         """every (key, timestamp, value) of every sst the tree lists: the physical contents of the
@@ -245,10 +254,19 @@ class Run8:
         view = self.impl_view()
         dump = self.icmd("dump")
         tree_max = 0
+        metas = []
         for ln in dump:
             if ln.startswith("DUMP"):
                 for it in ln.split(" ")[1:]:
-                    tree_max = max(tree_max, int(it.split(":")[5]))
+                    f = it.split(":")
+                    tree_max = max(tree_max, int(f[5]))
+                    metas.append((lsmlib.unhx(f[2]), lsmlib.unhx(f[3]), int(f[4]), int(f[5])))
+        if not first:
+            for i in range(len(metas)):
+                for j in range(i + 1, len(metas)):
+                    a, b = metas[i], metas[j]
+                    if a[0] <= b[1] and b[0] <= a[1] and not (a[3] < b[2] or b[3] < a[2]):
+                        self.k2_seen = True
         sums, rolls = [], []
         if not first:
             new = [x for x in view["mstrs"] if x not in before["mstrs"]]
@@ -356,10 +374,12 @@ class Run8:
             # a panic of the selector (next_compaction asserts) is not a statement about files:
             # counted, reported in the evidence, and the history ends here without a C08 verdict
             self.counts["selector_panic"] += 1
-            if self.counts["reopen"]:
+            if self.k2_seen:
                 # C01's known class K2 (recover.rs rebuilt levels that overlap): the selector's
                 # assertions trip on such a tree
                 self.counts["selector_panic_after_reopen"] += 1
+            else:
+                self.problem("error", what="a compaction step panicked and no reopen of this history recovered a tree of C01's class K2", out=out)
             self.dead = True
             return False
         if t[0] != "COMPACT":
@@ -407,6 +427,131 @@ class Run8:
             obs = self.model.cmd("step 2")
             self.held.pop(hookdrop, None)
         self.last_view = self.compare("compaction" + (" with a reader releasing inside" if hookdrop is not None else ""), obs, view)
+        return True
+
+    def recent_edits(self, frags, k):
+        """the last k edits the store applied (roll-ups, the first edit of every fragment but the
+        oldest, are not edits), oldest first, each with whether its apply rolled the manifest over
+        (it is then the last edit of a numbered fragment)"""
+        out = []
+        for fi, (name, edits) in enumerate(frags):
+            body = edits if fi == 0 else edits[1:]
+            for ei, e in enumerate(body):
+                rolled = name != "MANIFEST" and ei == len(body) - 1
+                out.append((e, rolled))
+        return out[-k:]
+
+    def compact2(self, hookdrop=None):
+        """two compaction threads: both select, then the second one's whole perform phase runs after
+        the first has pinned and linked its outputs and before it takes the compaction mutex for
+        its manifest edit (optionally a reader lets go of its snapshot at that point, too)"""
+        if self.dead:
+            return False
+        a = self.icmd("select")[0].split(" ")
+        if a[0] == "PANIC" or a[:2] == ["SELECT", "none"] or a[0] != "SELECT":
+            if a[0] == "PANIC":
+                self.events.append(("select", "PANIC"))
+                self.counts["selector_panic"] += 1
+                if self.k2_seen:
+                    self.counts["selector_panic_after_reopen"] += 1
+                else:
+                    self.problem("error", what="the selector panicked and no reopen of this history recovered a tree of C01's class K2", out=" ".join(a))
+                self.dead = True
+            else:
+                self.counts["none"] += 1
+            return False
+        sel = [(a[1], a[7].split(","), int(a[3]))]
+        for _ in range(2):
+            b = self.icmd("select")[0].split(" ")
+            if b[0] == "PANIC":
+                # the selector's assertions tripped (the compaction mutex is poisoned from here on)
+                self.counts["selector_panic"] += 1
+                if self.k2_seen:
+                    self.counts["selector_panic_after_reopen"] += 1
+                else:
+                    self.problem("error", what="the selector panicked and no reopen of this history recovered a tree of C01's class K2", out=" ".join(b))
+                self.dead = True
+                return False
+            if b[0] != "SELECT" or b[1] == "none":
+                break
+            sel.append((b[1], b[7].split(","), int(b[3])))
+        self.counts["selected_together_%d" % len(sel)] = self.counts.get("selected_together_%d" % len(sel), 0) + 1
+        # the outer compaction must link outputs (a trivial move links nothing): the first merging one
+        steps = []
+        outer = next((c for c in sel if len(c[1]) > 1), None)
+        if outer is not None and len(sel) > 1:
+            rest = [c for c in sel if c is not outer]
+            steps.append((outer[0], outer[1], outer[2], rest[0]))
+            for c in rest[1:]:
+                steps.append((c[0], c[1], c[2], None))
+        else:
+            for c in sel:
+                steps.append((c[0], c[1], c[2], None))
+        for idx, ins, up, inner in steps:
+            before = self.last_view
+            frags_before = set(before["ls"]["frags"])
+            if inner is not None:
+                self.icmd("hookperform %s" % inner[0])
+                if hookdrop is not None and self.held.get(hookdrop) == "snap":
+                    self.icmd("hookdrop r%d" % hookdrop)
+                else:
+                    hookdrop = None
+            out = self.icmd("perform %s" % idx)[0]
+            if not out.startswith("PERFORM ok") or (inner is not None and "inner=ok" not in out):
+                self.problem("error", what="a deferred compaction did not complete", out=out)
+                self.dead = True
+                return False
+            view = self.impl_view()
+            n_merge = (len(ins) > 1) + (inner is not None and len(inner[1]) > 1)
+            eds = self.recent_edits(self.all_edits(), n_merge) if n_merge else []
+            # the inner compaction commits first
+
+            def args(e, rolled, up):
+                return "%s | %s | %d %d" % (",".join(e["rm"]), ",".join(e["add"]), rolled, 0 if up == NUM_LEVELS - 1 else 1)
+            ok = True
+            if inner is None:
+                if len(ins) == 1:
+                    obs = self.model.cmd("move")
+                    self.counts["move"] += 1
+                else:
+                    e, rolled = eds[-1]
+                    ok = sorted(e["rm"]) == sorted(ins)
+                    self.note_edit(e)
+                    self.counts["roll"] += rolled
+                    self.counts["gc" if up == NUM_LEVELS - 1 else "merge"] += 1
+                    obs = self.model.cmd("compact " + args(e, rolled, up))
+            else:
+                e_out, r_out = eds[-1]
+                ok = sorted(e_out["rm"]) == sorted(ins)
+                self.model.cmd("compactbegin @0 " + args(e_out, r_out, up))
+                pc = self.model.cmd("pc 2").split(" ")[1:]
+                k = next(i for i, x in enumerate(pc) if x.startswith("commit"))
+                self.model.cmd("step 2 %d" % k)
+                if hookdrop is not None:
+                    self.model.cmd("drop %d" % hookdrop)
+                    self.held.pop(hookdrop, None)
+                if len(inner[1]) == 1:
+                    self.model.cmd("move @1")
+                    self.counts["move"] += 1
+                else:
+                    e_in, r_in = eds[-2]
+                    ok = ok and sorted(e_in["rm"]) == sorted(inner[1])
+                    self.note_edit(e_in)
+                    self.counts["roll"] += r_in
+                    self.model.cmd("compact @1 " + args(e_in, r_in, inner[2]))
+                    self.counts["interleaved_two_merges"] = self.counts.get("interleaved_two_merges", 0) + 1
+                self.note_edit(e_out)
+                self.counts["roll"] += r_out
+                obs = self.model.cmd("step 2")
+                self.counts["interleaved_compactions"] += 1
+                self.counts["gc" if up == NUM_LEVELS - 1 else "merge"] += 1
+            if not ok:
+                self.problem("corr", what="deferred compactions: the manifest's last edits do not remove the selected inputs", edits=str(eds)[:400])
+                self.last_view = view
+                return True
+            self.last_view = self.compare("two compactions in flight" if inner is not None else "deferred compaction", obs, view)
+            if self.dead:
+                return False
         return True
 
     def take(self, r, kind):
@@ -561,6 +706,9 @@ class Run8:
             tr.kill()
         self.counts["skill"] += 1
         self.counts["skill_reached"] += killed
+        if killed:
+            key = "skill_hit_%s_rename%d" % (what, j)
+            self.counts[key] = self.counts.get(key, 0) + 1
         try:
             self.sess.p.kill()
         except Exception:
